@@ -166,6 +166,9 @@ void
 Ipc::TypedMsgHdr::getRaw(void *rawBuf, size_t rawSize) const
 {
     if (rawSize > 0) {
+        // data.size may come from a received message; do not trust it
+        Must(data.size <= sizeof(data.raw));
+        Must(offset <= data.size);
         Must(rawSize <= data.size - offset);
         memcpy(rawBuf, data.raw + offset, rawSize);
         offset += rawSize;
@@ -177,6 +180,7 @@ void
 Ipc::TypedMsgHdr::putRaw(const void *rawBuf, size_t rawSize)
 {
     if (rawSize > 0) {
+        Must(data.size <= sizeof(data.raw));
         Must(rawSize <= sizeof(data.raw) - data.size);
         memcpy(data.raw + data.size, rawBuf, rawSize);
         data.size += rawSize;
